@@ -52,6 +52,9 @@ class FakeSocket:
         return 0.0
 
     def setsockopt(self, level: int, opt: int, value: Any) -> None:
+        if self.net.nodelay_exc is not None and level == _real_socket.IPPROTO_TCP and opt == _real_socket.TCP_NODELAY and self.connect_result == 0:
+            # configuring the freshly connected socket fails (the peer reset it right after accepting: EINVAL on some systems)
+            raise self.net.nodelay_exc
         self.opts.append((level, opt, value))
 
     def getsockopt(self, level: int, opt: int) -> int:
@@ -161,6 +164,7 @@ class Net:
         self.trace: list[tuple[float, str, dict[str, Any]]] = []
         self.on_socket: Callable[[FakeSocket], None] | None = None
         self.connect_exc: BaseException | None = None
+        self.nodelay_exc: BaseException | None = None
         self.gai_calls: list[Any] = []
         self.gai_pending: list[tuple[Any, Any]] = []  # (future, (host, port))
         self.gai_answer: Callable[[str, int], Any] | None = None  # immediate answer
